@@ -1,7 +1,7 @@
-(* C07 projections for Rem, QuoInteger and Quantize out of their functional theorems *)
+(* C07 and C02 projections for Rem, QuoInteger, Quantize, RoundToIntegral and Reduce out of their functional theorems *)
 From Coq Require Import ZArith Lia Bool.
 From Apd Require Import Generated.Consts Model.Base Model.NumDigits Model.Decimal Model.Context Spec.SpecZ
-  Proofs.Digits Proofs.Core Proofs.SetExponent Proofs.RoundSpec Proofs.OpsProofs Proofs.OpsProjections Proofs.DivProofs Proofs.QuantizeProofs Proofs.QuantizeMid.
+  Proofs.Digits Proofs.Core Proofs.SetExponent Proofs.RoundSpec Proofs.OpsProofs Proofs.OpsProjections Proofs.DivProofs Proofs.QuantizeProofs Proofs.QuantizeMid Proofs.ReduceProofs Proofs.CtxReduce.
 Open Scope Z_scope.
 
 Section WithEst.
@@ -41,5 +41,35 @@ Proof.
   - eexists; eexists. split; [exact H|left; reflexivity].
   - destruct H as (f & Hq & _ & _ & _ & _ & _ & Hfit). eexists; eexists. split; [exact Hq|right].
     cbn [form_of exp]. repeat split. exact Hfit.
+Qed.
+
+(* ---------- C02 ---------- *)
+(* Rem: the four value conditions describe the rounding of the exact remainder; DivisionImpossible exactly
+   when the integer quotient needs more than Precision digits, and then nothing else *)
+Lemma c02_rem c x y :
+  ctx_ok c -> finite_nn x -> finite_nn y -> coeff y <> 0 -> Z.abs (exp x - exp y) <= MaxExponent ->
+  let E := mkExact (neg x) (al_a x y mod al_b x y) 1 (al_exp x y) in
+  exact_in_limits c E ->
+  if ndigits (al_a x y / al_b x y) >? prec c
+  then ctx_rem est c x y = Ok (finish c d_nan fDivisionImpossible)
+  else exists d f, ctx_rem est c x y = Ok (finish c d f) /\ c02_post c E d f.
+Proof.
+  intros Hc Hx Hy Hny Hgap E HL. pose proof (rem_correct est HE c x y Hc Hx Hy Hny Hgap HL) as H.
+  cbv zeta in H. destruct (_ >? _); [exact H|].
+  destruct H as (d & f & Hr & Hp). exists d, f. split; [exact Hr|exact (post_c02 c _ d f Hp)].
+Qed.
+
+(* Reduce: the conditions are those of the one rounding (stripping zeros raises nothing) *)
+Lemma c02_reduce c x : ctx_ok c -> finite_nn x -> exact_in_limits c (exact_of_dec x) ->
+  exists d' f n, ctx_reduce est c x = Ok (finish c d' f, n) /\
+    exists d, c02_post c (exact_of_dec x) d f /\ (form_of d' = Finite <-> form_of d = Finite).
+Proof.
+  intros Hc Hx HL. destruct (ctx_reduce_correct est HE c x Hc Hx HL) as (d & f & d' & n & Hr & Hp & Hi & Hz & Hnz).
+  exists d', f, n. split; [exact Hr|]. exists d. split; [exact (post_c02 c _ d f Hp)|].
+  destruct (op_post_shape c _ d f Hp) as [(Hf & Hco & _)|Hinf].
+  - destruct (Z.eq_dec (coeff d) 0) as [H0|H0].
+    + destruct (Hz Hf H0) as [-> _]. cbn [form_of]. tauto.
+    + destruct (Hnz Hf ltac:(lia)) as (Hf' & _). tauto.
+  - destruct (Hi Hinf) as [-> _]. tauto.
 Qed.
 End WithEst.
